@@ -945,6 +945,9 @@ impl Engine for BevyEngine {
     fn abstract_transitions_possible(&self, _property: &str) -> u64 {
         4 * 4 * 2 * 5 * 2
     }
+    fn extra_evidence(&self, _property: &str) -> Vec<(String, Json)> {
+        vec![("declared_system_order".to_string(), declared_order_report())]
+    }
 }
 
 fn main() {
